@@ -416,6 +416,10 @@ func (gb *gcpBalancer) getSubConnRoundRobin(ctx context.Context) *subConnRef {
 func (gb *gcpBalancer) bindSubConn(bindKey string, sc balancer.SubConn) {
 	gb.mu.Lock()
 	defer gb.mu.Unlock()
+	if _, found := gb.scRefs[sc]; !found {
+		// The SubConn is no longer in the pool (it was shut down or replaced).
+		return
+	}
 	_, ok := gb.affinityMap[bindKey]
 	if !ok {
 		gb.affinityMap[bindKey] = sc
